@@ -271,7 +271,9 @@ func (mc *MemoryChannel) finishRdb(writer *MemoryRdbWriter, err error) {
 	if mc.rdbWriter == writer {
 		mc.rdbWriter = nil
 	}
-	if err != nil && mc.rdb == writer.rdb {
+	// a writer that ended before all bytes arrived (error, or closed early) leaves a partial
+	// snapshot, which must not be offered for replay
+	if (err != nil || writer.rdb.bufferedSize() < writer.rdb.size) && mc.rdb == writer.rdb {
 		mc.totalSize -= writer.rdb.bufferedSize()
 		if mc.totalSize < 0 {
 			mc.totalSize = 0
